@@ -263,8 +263,12 @@ def g_convert(rng, ragged):
     t = _table(rng, ragged, dup=True)
     hdr = t[0]
     mode = rng.choice(['one', 'several', 'dict', 'translate', 'index', 'where', 'passrow', 'method', 'all', 'replace', 'replaceall', 'update', 'format',
-                       'interpolate', 'listspec', 'formatall', 'interpolateall', 'all', 'replaceall'])
+                       'interpolate', 'listspec', 'formatall', 'interpolateall', 'all', 'replaceall', 'convertnumbers'])
     c = {'table': t, 'mode': mode}
+    if mode == 'convertnumbers':
+        for r in t[1:]:
+            r[:] = [rng.choice(['1', '2.5', '3+1j', 'x', None, 7, '', ' 4 ', '-0', '1e3', 'ab']) for _ in r]
+        c['strict'] = rng.random() < 0.4
     if mode in ('one', 'where', 'passrow', 'replace', 'update', 'format', 'interpolate', 'translate', 'method'):
         c['field'] = rng.choice(hdr) if rng.random() < 0.7 else rng.randrange(len(hdr))
     elif mode in ('several',):
@@ -281,7 +285,7 @@ def g_convert(rng, ragged):
                 r[fi] = rng.choice(TEXT)
     if mode in ('where', 'update'):
         c['where'] = rng.choice(['len', 'expr', None]) if mode == 'update' else rng.choice(['len', 'expr'])
-    if mode in ('all', 'replaceall', 'formatall', 'interpolateall', 'replace', 'format', 'interpolate'):
+    if mode in ('all', 'replaceall', 'formatall', 'interpolateall', 'replace', 'format', 'interpolate', 'convertnumbers'):
         c['where'] = rng.choice([None, 'len', 'expr'])
     c['a'], c['b'] = rng.choice(CELLS), rng.choice(['NEW', None, 0])
     return c
@@ -680,6 +684,19 @@ def j_convert(case, ctx, table, hdr, rows, tabs, frame):
     elif mode == 'all':
         targets = {i: conv for i in range(len(hdr))}
         call = lambda: petl.convertall(table, conv, **kw)  # noqa: E731
+    elif mode == 'convertnumbers':
+        strict = case['strict']
+
+        def num(v):
+            for T in (int, float, complex):
+                try:
+                    return T(v)
+                except (ValueError, TypeError):
+                    pass
+            return None if strict else v      # strict: the parser raises, and under the default failonerror the cell gets errorvalue (None)
+        targets = {i: num for i in range(len(hdr))}
+        call = lambda: petl.convertnumbers(table, strict=strict, **kw)  # noqa: E731
+        ctx.seen('convertnumbers')
     elif mode == 'formatall':
         targets = {i: (lambda v: '<{}>'.format(v)) for i in range(len(hdr))}
         call = lambda: petl.formatall(table, '<{}>', **kw)  # noqa: E731
